@@ -49,6 +49,14 @@ func XMLChecking(ctx *runtime.Task, funcExpr *ast.CallExpr) *errchain.PlError {
 }
 
 func XML(ctx *runtime.Task, funcExpr *ast.CallExpr) *errchain.PlError {
+	// The XPath engine panics while evaluating some expressions it has compiled
+	// (starts-with(1, 2), substring(., 0, 1), matches(., "("), ...). That is a
+	// failed query like any other: report it in the log and leave the point alone.
+	defer func() {
+		if r := recover(); r != nil {
+			l.Debug(r)
+		}
+	}()
 	var (
 		xmlKey, fieldName string
 		xpathExpr         string
